@@ -43,7 +43,24 @@ def smc_env(w):
     ctx = w.ctx
     b = []
     fac = NPFacade(random=_Sub(np.random, {'RandomState': RoundRS}))
-    b.append((smp, {'np': fac}))
+    w.gm_calls = []
+
+    class RecGM(mu.GMDistribution):
+        """The real mixture distribution; records with which parameters the sampler uses it and how many populations
+        existed at that moment."""
+
+        @classmethod
+        def logpdf(cls, x, means, cov=1, weights=None):
+            w.gm_calls.append(('logpdf', len(getattr(w, 'smc', None)._populations) if getattr(w, 'smc', None) is not None else None,
+                               means, cov, weights))
+            return mu.GMDistribution.logpdf(x, means, cov, weights)
+
+        @classmethod
+        def rvs(cls, means, cov=1, weights=None, size=1, prior_logpdf=None, random_state=None):
+            w.gm_calls.append(('rvs', len(getattr(w, 'smc', None)._populations) if getattr(w, 'smc', None) is not None else None,
+                               means, cov, weights))
+            return mu.GMDistribution.rvs(means, cov, weights, size=size, prior_logpdf=prior_logpdf, random_state=random_state)
+    b.append((smp, {'np': fac, 'GMDistribution': RecGM}))
     b.append((mu, {'ss': SSFacade()}))
     return b
 
@@ -55,7 +72,7 @@ def wvar_ref(xs, ws):
     return V1 / (V1 * V1 - V2) * Sum([w * (x - xbar) * (x - xbar) for w, x in zip(ws, xs)])
 
 
-def h_smc(ctx, bs, n, mode, rounds, K, max_trials=2, max_parallel=1, bounded=True):
+def h_smc(ctx, bs, n, mode, rounds, K, max_trials=2, max_parallel=1, bounded=True, split=None, stop_early=False):
     w = World(ctx, bs, max_batches=K, d_specials=(), bounded_prior=bounded)
     trials = [0]
     kw = {}
@@ -67,6 +84,7 @@ def h_smc(ctx, bs, n, mode, rounds, K, max_trials=2, max_parallel=1, bounded=Tru
         kw['quantiles'] = list(qs)
     with w.env(), patched(smc_env(w)):
         smc = elfi.SMC(w.model['d'], batch_size=bs, seed=w.seed, max_parallel_batches=max_parallel)
+        w.smc = smc
         w.watch(smc)
         # bound the number of proposal retries inside one GMDistribution.rvs call
         orig_logpdf = smc._prior.logpdf
@@ -87,10 +105,56 @@ def h_smc(ctx, bs, n, mode, rounds, K, max_trials=2, max_parallel=1, bounded=Tru
         smc._prior.logpdf = logpdf
         smc.prepare_new_batch = prepare_new_batch
         trials[0] = -1000
-        res = smc.sample(n, bar=False, **kw)
+        if split:
+            # the rounds are run in two calls of sample() on the same sampler object (continued sampling after a real
+            # first call: whatever the first call left in the object is what the second one starts from).  To keep the
+            # first call cheap its rounds are pinned to the simplest course: batch r is accepted whole, in order.
+            key = 'thresholds' if mode == 'thresholds' else 'quantiles'
+            for b in range(split):
+                dv = list(w.col('d', b))
+                w.calls[('d', b)] -= 1
+                for i in range(bs - 1):
+                    ctx.assume(dv[i] < dv[i + 1])
+                if mode == 'thresholds':
+                    ctx.assume(dv[-1] <= ths[b])
+            smc.sample(n, bar=False, **{key: kw[key][:split]})
+            for pop in smc._populations:
+                # non-degenerate populations (identical particles give a singular proposal covariance: scipy raises)
+                ctx.assume(np.asarray(pop.meta['cov'], dtype=object).reshape(-1)[0] > 0)
+            if stop_early:
+                # only the first proposal of the continued call is observed (cheap): which population it is drawn from
+                class StopHere(Exception):
+                    pass
+                inner = smc.prepare_new_batch
+
+                def prepare_then_stop(batch_index):
+                    inner(batch_index)
+                    raise StopHere()
+                smc.prepare_new_batch = prepare_then_stop
+                n_before = len(w.gm_calls)
+                try:
+                    smc.sample(n, bar=False, **{key: kw[key][split:]})
+                except StopHere:
+                    pass
+                ctx.claim('the_continued_call_made_a_proposal', len(w.gm_calls) > n_before)
+                proposal_claims(ctx, w, list(smc._populations))
+                return
+            res = smc.sample(n, bar=False, **{key: kw[key][split:]})
+        else:
+            res = smc.sample(n, bar=False, **kw)
     pops = res.populations
     ctx.note('mode=%s consumed=%s' % (mode, w.consumed))
     ctx.claim('n_populations', len(pops) == rounds)
+    proposal_claims(ctx, w, pops)
+    if split:
+        # the heavy per-round weight identities are decided by the single-call harnesses; here: what the continued call
+        # proposes from and weights against
+        for r, pop in enumerate(pops):
+            ctx.claim('pop%d_has_n_particles' % r, len(pop.outputs['t']) == n and len(pop.weights) == n)
+            if mode == 'thresholds':
+                ctx.claim('pop%d_all_within_threshold' % r, And(*[d <= ths[r] for d in pop.outputs['d']]))
+        ctx.claim('result_is_last_population', And(*[close(a, b) for a, b in zip(res.outputs['t'], pops[-1].outputs['t'])]))
+        return
     total_batches = 0
     for r, pop in enumerate(pops):
         force = None
@@ -102,6 +166,22 @@ def h_smc(ctx, bs, n, mode, rounds, K, max_trials=2, max_parallel=1, bounded=Tru
     ctx.claim('n_batches_sum_of_rounds', res.n_batches == len(w.consumed) and total_batches == len(w.consumed))
     ctx.claim('consumed_in_index_order', w.consumed == list(range(len(w.consumed))))
     ctx.claim('result_is_last_population', And(*[close(a, b) for a, b in zip(res.outputs['t'], pops[-1].outputs['t'])]))
+
+
+def proposal_claims(ctx, w, pops):
+    """Every use of the mixture proposal (drawing candidates, evaluating its density for the weights) while k populations
+    exist takes its means, covariance and weights from population k-1: the previous population."""
+    ok_n = True
+    for kind, k, means, cov, weights in w.gm_calls:
+        if k is None or k < 1 or k > len(pops):
+            ok_n = False
+            continue
+        prev = pops[k - 1]
+        ctx.claim('mixture_%s_with_%d_populations_uses_the_previous_population' % (kind, k), And(
+            *[close(a, b) for a, b in zip(np.asarray(means, dtype=object).reshape(-1), list(prev.outputs['t']))],
+            *[close(a, b) for a, b in zip(np.asarray(weights, dtype=object).reshape(-1), list(prev.weights))],
+            close(np.asarray(cov, dtype=object).reshape(-1)[0], np.asarray(prev.meta['cov'], dtype=object).reshape(-1)[0])))
+    ctx.claim('mixture_used_only_when_a_previous_population_exists', ok_n)
 
 
 def round_claims(ctx, smc, r, pop, prev, force, qr, n, bounded):
@@ -153,6 +233,10 @@ def round_claims(ctx, smc, r, pop, prev, force, qr, n, bounded):
             ctx.claim('pop%d_weight%d_is_prior_over_mixture' % (r, i), pop.weights[i] == ref)
         else:
             import math
+            if not (q > 0 and math.isfinite(q)):
+                # the mixture density underflowed in doubles at this replay point: outside the (exact real) claim
+                ctx.claim('pop%d_weight%d_is_prior_over_mixture' % (r, i), True)
+                continue
             ctx.claim('pop%d_weight%d_is_prior_over_mixture' % (r, i),
                       close(pop.weights[i], math.exp(lp - math.log(q)), 1e-6))
 
@@ -212,12 +296,18 @@ def h_smc_continue(ctx, bs, n, mode, K, max_trials=2, bounded=False):
 
 def mk(name, **p):
     tiers = p.pop('tiers', ('quick', 'thorough'))
-    b = 'batch_size=%d n=%d %s rounds=%d <=%d batches%s' % (p['bs'], p['n'], p['mode'], p['rounds'], p['K'],
-                                                         '' if p.get('bounded', True) else ' unbounded prior')
+    b = 'batch_size=%d n=%d %s rounds=%d <=%d batches%s%s' % (p['bs'], p['n'], p['mode'], p['rounds'], p['K'],
+                                                           '' if p.get('bounded', True) else ' unbounded prior',
+                                                           '; rounds run as two sample() calls (%d + %d) on one sampler object' % (
+                                                               p['split'], p['rounds'] - p['split']) if p.get('split') else '')
     return H(name, h_smc, p, tiers=tiers, bounds=b, path_timeout=300)
 
 
 HARNESSES = [
+    mk('thr_bs2_n2_two_calls_first_proposal', bs=2, n=2, mode='thresholds', rounds=3, K=3, bounded=False, split=2, max_trials=1,
+       stop_early=True),
+    mk('thr_bs2_n2_r3_two_calls_unbounded', bs=2, n=2, mode='thresholds', rounds=3, K=3, bounded=False, split=2, max_trials=1,
+       tiers=('thorough',)),
     mk('thr_bs2_n2_r1', bs=2, n=2, mode='thresholds', rounds=1, K=2),
     mk('thr_bs2_n2_r2_unbounded', bs=2, n=2, mode='thresholds', rounds=2, K=2, bounded=False),
     mk('thr_bs1_n2_r2_bounded', bs=1, n=2, mode='thresholds', rounds=2, K=4),
